@@ -25,6 +25,9 @@ ENTRY = "initialize"
 OPAQUE = ("init_config", "init_logger", "init_exceptions", "init_mimetypes")
 CONFIG = "config"
 LOGGERS = ("logger.log", "GopherExceptions.log")
+OBSERVABLE_BUILTINS = ("open",)
+OBJECT_CTORS = ("ssl.create_default_context", "open")
+MODULE_NAMES = [set()]      # names bound by import statements of initialization.py (filled per run)
 SERVER_CLASSES = ("ForkingTCPServer", "ThreadingTCPServer")
 PURE_CALLS = ("int", "str", "len", "struct.pack", "float")
 _O = "(EOpq [])"
@@ -105,6 +108,27 @@ def register_units(UNITS, gen):
                         and dotted(n.value).split(".")[-1] in SERVER_CLASSES
                     cv[n.targets[0].id] = cv.get(n.targets[0].id, True) and ok
             self.class_vars = {k for k, v in cv.items() if v}
+            # locals bound to an object that the harness stands in for (result of one of OBJECT_CTORS)
+            self.obj_vars = set()
+            for n in ast.walk(node):
+                pairs = []
+                if isinstance(n, ast.Assign) and len(n.targets) == 1 and isinstance(n.targets[0], ast.Name):
+                    pairs.append((n.targets[0].id, n.value))
+                if isinstance(n, ast.With):
+                    for it in n.items:
+                        if isinstance(it.optional_vars, ast.Name):
+                            pairs.append((it.optional_vars.id, it.context_expr))
+                for var, val in pairs:
+                    is_ctor = isinstance(val, ast.Call) and isinstance(val.func, (ast.Name, ast.Attribute)) \
+                        and dotted(val.func) in OBJECT_CTORS
+                    if is_ctor:
+                        self.obj_vars.add(var)
+            for n in ast.walk(node):        # ... and to nothing else
+                if isinstance(n, ast.Assign):
+                    for t in n.targets:
+                        if isinstance(t, ast.Name) and t.id in self.obj_vars and not (
+                                isinstance(n.value, ast.Call) and dotted(n.value.func) in OBJECT_CTORS):
+                            self.obj_vars.discard(t.id)
 
         # ---- expressions ----
         def call(self, e):
@@ -165,6 +189,22 @@ def register_units(UNITS, gen):
                         raise U("missing argument %s for %s" % (p, f.id))
                 return "(ELocal %s %s)" % (q(f.id), lst(args))
             args = [self.expr(a) for a in e.args] + [self.expr(k.value) for k in e.keywords]
+            # An external call becomes an effect of the IR only if the harness can observe it: a
+            # function of a module that initialization.py imports (the harness substitutes those
+            # modules), the built-in open, or a method of an object such a call returned.  Anything
+            # else — getattr(), a call through some other local, a method of a plain value — is not
+            # observable as an effect: fail closed rather than emit an IR that means something else.
+            root = name.split(".")[0]
+            if isinstance(f, ast.Name):
+                if f.id in self.locals or f.id not in OBSERVABLE_BUILTINS:
+                    if f.id in PURE_CALLS and f.id not in self.locals:
+                        return "(EOpq %s)" % lst(args)
+                    raise U("call of %s(): not an observable external call" % f.id)
+            elif root in self.locals:
+                if root not in self.obj_vars or name.count(".") != 1:
+                    raise U("method call on a local value: " + name)
+            elif root not in MODULE_NAMES[0]:
+                raise U("call through a name that is not an imported module: " + name)
             return "(ECall %s %s)" % (q(name), lst(args))
 
         def expr(self, e):
@@ -375,11 +415,21 @@ def register_units(UNITS, gen):
         def emit(self):
             return "FunDef %s %s\n    %s" % (q(self.node.name), lst(q(p) for p in self.params), self.block(self.node.body))
 
+    def imported_names(tree):
+        mods = set()
+        for n in ast.walk(tree):
+            if isinstance(n, ast.Import):
+                mods.update(al.name.split(".")[0] for al in n.names)
+            elif isinstance(n, ast.ImportFrom):
+                mods.update(al.name for al in n.names)
+        return mods
+
     def server_ctor(repo):
         """FunDef "server_class": what constructing pygopherd.server.<Forking|Threading>TCPServer does to
         the socket — BaseServer.__init__, then socketserver.TCPServer.__init__ with BaseServer's
         server_bind / server_activate / server_close where it overrides them."""
         tree = gen.parse(repo, "pygopherd/server.py")
+        MODULE_NAMES[0] = imported_names(tree)      # the harness substitutes `socket` in there
         base = gen.find_class(tree, "BaseServer")
         if [dotted(b) for b in base.bases] != ["socketserver.BaseServer"]:
             raise U("BaseServer: unexpected base classes")
@@ -477,6 +527,7 @@ def register_units(UNITS, gen):
                 for al in n.names:
                     if al.asname is not None:
                         raise U("import ... as ... at module level")
+        MODULE_NAMES[0] = imported_names(tree)
         # reachable functions, in call order
         order, todo = [], [ENTRY, "init_security", "get_server"]
         while todo:
